@@ -35,3 +35,11 @@ func VerifC09GossipSet(v *verifrt.T) {
 	})
 	v.Assert(!p, "C09.gossipset.accepted-set-is-usable")
 }
+
+// VerifRaw stores an entry with the given key and times as a decoded payload would hold it.
+func (s *Volatile) VerifRaw(key string, add, del int64) {
+	val := newValue()
+	val.setAddTime(add)
+	val.setDelTime(del)
+	s.data[key] = val
+}
